@@ -71,6 +71,17 @@ def run(ctx):
                 t = os.path.join(ctx.work, "%s-%d.ndjson" % (mode, sd))
                 lib.run_driver(exe, [mode, t, 0 if q else 1], env={"VERIF_SEED": str(sd)}, timeout=900)
                 traces.append(t)
+        if not q:
+            # the same driver against the ASan/UBSan-instrumented STIR libraries: an access outside an array inside
+            # the normalisation classes stops the run and leaves an Abort line, which the specification never explains
+            exes = lib.build_driver("c13_norm", santree=True)
+            for mode in ("exact", "att"):
+                t = os.path.join(ctx.work, "%s-san.ndjson" % mode)
+                rc, out = lib.run_driver(exes, [mode, t, 0], env={"VERIF_SEED": str(ctx.seed + 7)}, timeout=1500, allow_fail=True)
+                if rc != 0:
+                    with open(t, "a") as f:
+                        f.write(json.dumps({"e": "Abort", "rc": rc, "why": out[-400:]}) + "\n")
+                traces.append(t)
     # 3. validate (chunks in parallel)
     chunks = []
     for t in traces:
